@@ -107,13 +107,16 @@ CHECKS = {
              "minimiser (C01) of the PLS objective with unit weight on valid cells and 0 on missing ones, gaps included; half-even "
              "rounding stays within 1/2; lambda = 0 (sg = -inf) and < 2 valid cells pass the input through; the model of ws2dpgu is "
              "the 10-pass reweighting from the zero curve with one more solve, equals the curve the loop stopped at, and is a fixed "
-             "point of the reweighting when the loop stopped on an unchanged pass. The binary64 instance is compared bit-for-bit "
+             "point of the reweighting when the loop stopped on an unchanged pass; every such fixed point is the expectile curve - the "
+             "unique minimiser of sum w_i (p if y_i > z_i else 1-p)(y_i - z_i)^2 + lambda |D2 z|^2 (convexity with modulus min(p, 1-p), "
+             "Proofs/Expectile.v) - for 0 < p < 1, n >= 4, two positive weights. The binary64 instance is compared bit-for-bit "
              "with the compiled kernels and the whits accessor (s / sgrid incl. -inf / p, three dim orders); an independent exact "
              "(Fraction) PLS / 10-pass expectile computation is held against the implementation with the +-1-at-ties rule.",
         ref="7 (C03)",
         note="Trusted: Coq kernel + vm_compute; harness; float64 rounding is not proved (exact curve compared with the tie rule; "
              "cases with an IRLS residual within 1e-9 of zero skipped and counted; out-of-int16 curves dropped and counted). "
-             "The expectile-minimiser characterisation of the fixed point is not proved (DESIGN 7, C03). Axioms: the standard "
+             "When the 10 passes run out without an unchanged pass the result is the 10-pass iterate (as the property defines it), not "
+             "claimed to be the minimiser. Axioms: the standard "
              "library's real-number axioms (sig_forall_dec, sig_not_dec, classic, functional_extensionality_dep).",
         technique="Coq proof (composition with C01, reweighting-loop lemmas) + bit-exact correspondence + exact-rational oracle"),
     "C04": dict(
